@@ -225,8 +225,8 @@ structure Outline where
   heights : List Int
   /-- opaque glyph data (outlines, names, private dicts, TrueType side tables) -/
   glyphs : Str
-  /-- TrueType only: every glyph is blank, so the encoded glyf table has length 0 (and
-  `header.Info.Has` then reports it as absent) -/
+  /-- TrueType only: every glyph is blank, so the encoded glyf table has length 0 (accepted by
+  `Read` since 3cdbec2; kept as part of the outline summary) -/
   emptyGlyf : Bool
   /-- opaque cmap table; "-" when `CMapTable == nil` -/
   cmap : Str
